@@ -124,7 +124,7 @@ def plan(rng, tier):
         elif r < 0.47:
             op = ["copy", rng.choice(["copy", "deepcopy"])]
         elif r < 0.50:
-            op = ["ctor", g.keylist(0, 8), rng.choice(["list", "sorted",
+            op = ["ctork", g.keylist(0, 8), rng.choice(["list", "sorted",
                                                        "gen"])]
         else:
             if rng.random() < 0.3:
@@ -215,7 +215,7 @@ def _do(c, op, dom, kind, seqs, live):
                 r = c - other
             len(r)
             return "ok"
-        if name in ("resolve", "ctor"):
+        if name in ("resolve", "ctork"):
             r = cmpfault._do({"cfg": {"kind": kind, "impl": "c"}, "op": op},
                              dom, c, [])
             return r[1] if r[0] == "exc" else "ok"
